@@ -439,6 +439,15 @@ def longstring_cases():
                         w.put(text[len(pre) + len(at) + 1:])
                         ev = b"V%d:%d " % pos + vraw(tag, c) + b"\nW%d:%d dead" % w.pos()
                         out.append((text, ev))
+                # (a-crlf) Windows line ends, literal in column 1: one CRLF is removed at each end
+                if not buf:
+                    cc = c.replace(b"\n", b"\r\n")
+                    text = t + b"\r\n" + cc + b"\r\n" + t
+                    w = Writer()
+                    w.put(b"`")
+                    pos = w.pos()
+                    w.put(text[1:])
+                    out.append((text, b"V%d:%d " % pos + vraw(tag, cc) + b"\nW%d:%d dead" % w.pos()))
                 # (c) a line that starts with a non-space inside the indentation zone disables stripping
                 if b"\n" in c and not c.startswith(b"\n") and not c.endswith(b"\n") and all((ln[:1] not in (b" ", b"")) for ln in c.split(b"\n")[1:]):
                     pre = b"    "
